@@ -72,3 +72,42 @@ func HarnessC04Conditions() {
 	zz.Assert("no-condition-invented", len(res.Conditions) == k)
 	zz.Assert("no-result-invented", len(res.Events) == e)
 }
+
+// HarnessC04Context: the context is threaded from step to step exactly as
+// returned - also when a step in the middle of the pipeline answers without
+// any context: the step after it then receives none, not an older one.
+//
+//gosym:harness
+//gosym:cover step-without-context context-passed-on
+func HarnessC04Context() {
+	s := kube.New()
+	zzSetupComposedN(s, 1, 0, "", false)
+	runner := &zzRunner{}
+	for i := 0; i < 3; i++ {
+		nm := "step" + string(rune('0'+i))
+		st := zzStep{desired: []bool{true}, ctxValue: "ctx-" + nm}
+		if zz.Bool(nm + ".returnsNoContext") {
+			st.ctxValue, st.noContext = "", true
+		}
+		runner.steps = append(runner.steps, st)
+	}
+	c := NewFunctionComposer(s, s, runner)
+	_, err := c.Compose(context.Background(), zzReadXR(s), CompositionRequest{Revision: zzRevision(3)})
+	zz.Assert("compose-no-error", err == nil)
+	if err != nil || len(runner.calls) != 3 {
+		zz.Assert("every-step-called-once", err != nil)
+		return
+	}
+	zz.Assert("first-step-starts-from-empty-context", len(runner.calls[0].context.GetFields()) == 0)
+	for k := 1; k < 3; k++ {
+		prev := runner.calls[k-1].rsp.GetContext()
+		got := runner.calls[k].context
+		if prev == nil {
+			zz.Cover("step-without-context")
+			zz.Assert("step-after-one-without-context-receives-none", len(got.GetFields()) == 0)
+		} else {
+			zz.Cover("context-passed-on")
+			zz.Assert("step-receives-previous-steps-context", got == prev)
+		}
+	}
+}
